@@ -94,7 +94,7 @@ class EvenAsphere(NewtonRaphsonGeometry):
             dict: The dictionary representation of the geometry.
         """
         data = super().to_dict()
-        data["coefficients"] = self.c
+        data["coefficients"] = list(self.c)  # a snapshot, not the live list
 
         return data
 
@@ -118,7 +118,7 @@ class EvenAsphere(NewtonRaphsonGeometry):
         conic = data.get('conic', 0.0)
         tol = data.get('tol', 1e-10)
         max_iter = data.get('max_iter', 100)
-        coefficients = data.get('coefficients', [])
+        coefficients = list(data.get('coefficients', []))
 
         return cls(cs, data['radius'],
                    conic, tol, max_iter, coefficients)
